@@ -26,3 +26,7 @@ def run(tier):
         "programs: curated set incl. injected-base and lite-probe programs; trusted: g++/clang++, the structure descriptor",
     ]
     return chk
+
+
+def replay(path):
+    return en.replay(path)
